@@ -48,6 +48,8 @@ Definition atoms_guarded : bool :=
 Inductive lexeme :=
 | LIdent (c : N) (v : str)      (* identifier / keyword: c a letter or _ (not l L u U), v identifier characters *)
 | LSpace                        (* one space *)
+| LTab                          (* one tab (indentation / alignment) *)
+| LNewline                      (* end of a line *)
 | LOp (o : N)                   (* a one-character operator *)
 | LBracket (b : N)              (* ( ) [ ] { } *)
 | LAtom (w : str).              (* a member of `atoms` *)
@@ -56,6 +58,8 @@ Definition lx_text (a : lexeme) : str :=
   match a with
   | LIdent c v => c :: v
   | LSpace => [32%N]
+  | LTab => [9%N]
+  | LNewline => [10%N]
   | LOp o => [o]
   | LBracket b => [b]
   | LAtom w => w
@@ -68,7 +72,7 @@ Definition lexeme_ok (a : lexeme) (r : str) : bool :=
   match a with
   | LIdent c v => chr_in c ident_first && forallb is_ident_char v
                   && match r with [] => true | d :: _ => negb (is_ident_char d) end
-  | LSpace => true
+  | LSpace | LTab | LNewline => true
   | LOp o => chr_in o ops_plain || (chr_in o ops_multi && first_in op_follow r)
   | LBracket b => chr_in b bracket_chars
   | LAtom w => str_in w atoms && (match r with [] => true | _ => false end || first_in atom_follow r)
@@ -79,6 +83,33 @@ Fixpoint render (ls : list lexeme) : str :=
 
 Fixpoint chain (ls : list lexeme) : bool :=
   match ls with [] => true | a :: ls' => lexeme_ok a (render ls') && chain ls' end.
+
+(* ---------------------------------------------------------------- the token kinds of a rendered text *)
+(* type and value of the token an atom is cut into (evaluated once per atom on `w ` ) *)
+Definition atom_tok (w : str) : str * option str :=
+  match step nouni nouni (init (w ++ [32%N])) with
+  | StepItem (ITok t _ _) _ => (t_type t, t_val t)
+  | _ => ([], None)
+  end.
+Definition type_in (tbl : list (str * str)) (c : N) : str := match assoc [c] tbl with Some ty => ty | None => [] end.
+
+(* the type of the ONE token each lexeme is cut into (Proofs/ConformingProofs.conforming_text_tokens) *)
+Definition lx_type (a : lexeme) : str :=
+  match a with
+  | LIdent c v => match assoc (c :: v) keywords with Some k => k | None => s "IDENTIFIER" end
+  | LSpace => s "SPACE"
+  | LTab => s "TAB"
+  | LNewline => s "NEWLINE"
+  | LOp o => type_in operators o
+  | LBracket b => type_in brackets b
+  | LAtom w => fst (atom_tok w)
+  end.
+
+(* token kinds that no unit of the conforming family G contains: the ternary operator and the colon, goto, labels,
+   for / do / switch / case / default, and the keywords of declarations G does not use inside function bodies *)
+Definition forbidden_kinds : list str :=
+  [s "TERN_CONDITION"; s "COLON"; s "GOTO"; s "FOR"; s "SWITCH"; s "CASE"; s "DO"; s "DEFAULT"].
+Definition kinds_ok (ls : list lexeme) : bool := forallb (fun a => negb (str_in (lx_type a) forbidden_kinds)) ls.
 
 (* convenience for examples: a name as a lexeme *)
 Definition ident (x : str) : lexeme := match x with c :: v => LIdent c v | [] => LSpace end.
